@@ -144,6 +144,15 @@ class Scanner:
             return
         if act == '.stop' and not conds and len(self.frames) == 1:
             self.dead = True
+        if act.startswith(('.stop', '.setLast', '.setFlag')):
+            # The model takes a test it cannot decide for possibly true.  That is the careful reading for a requirement
+            # (it may be reached), not for leaving the handler or for changing the state: those must not hide what follows.
+            undecided = [c for c in conds if c.kind == 'opaque' and not assume.known(c.args[0])]
+            if undecided:
+                if act.startswith('.stop'):
+                    self.notes.append(f'`continue`/`return` under a test the model cannot decide ({undecided[0].args[0][:50]}): what follows is kept')
+                    return
+                self.lost.append(f'{act} under a test the model cannot decide: {undecided[0].args[0][:60]}')
         if any(c.kind == 'tok' for c in conds):
             rest = [c for c in conds if c.kind != 'tok']
             self.unknown_text(f'{act} under a test of a single token', (rest, catch, tid))
@@ -750,7 +759,7 @@ class Scanner:
         return av
 
     def ev_Lambda(self, node, g):
-        return Unk()
+        return LocalFn(node)
 
     # ---- attributes -------------------------------------------------------------------------------------------
     def mro_assigns(self, cls, attr):
@@ -1072,6 +1081,8 @@ class Scanner:
     def apply(self, fv, args, kw, node, g):
         if isinstance(fv, Meth):
             return self.call_method(fv, args, kw, node, g)
+        if isinstance(fv, LocalFn):
+            return self.inline_local(fv.node, args, kw, g, node)
         if isinstance(fv, Const) and isinstance(fv.v, FuncRef):
             fn = self.prog.func(fv.v)
             if fn is not None and self.worth_inlining(fn, None, args, kw):
@@ -1361,6 +1372,46 @@ class Scanner:
         if not fr.returns:
             return Const(None)
         return self.merge_avs(fr.returns)
+
+    def inline_local(self, fn, args, kw, g, node):
+        """a nested function / lambda: its body sees the locals of the function around it"""
+        if len(self.frames) > MAX_DEPTH or fn in self.stack:
+            if any(self.hot(a) for a in list(args) + list(kw.values())):
+                self.unknown(node, g)
+            return Unk()
+        outer = self.fr
+        fr = Frame(None, outer.mod, outer.selfav)
+        fr.fn = outer.fn
+        fr.owner = getattr(outer, 'owner', None)
+        fr.locals = set(outer.locals) | {n.id for n in ast.walk(fn) if isinstance(n, ast.Name) and isinstance(n.ctx, ast.Store)}
+        fr.env = dict(outer.env)
+        fr.defs = dict(outer.defs)
+        a = fn.args
+        params = [x.arg for x in a.posonlyargs + a.args]
+        fr.locals |= set(params) | {x.arg for x in a.kwonlyargs}
+        for p_, v in zip(params, args):
+            fr.env[p_] = v
+            fr.defs.pop(p_, None)
+        defaults = dict(zip(params[len(params) - len(a.defaults):], a.defaults))
+        for p_ in params[len(args):] + [x.arg for x in a.kwonlyargs]:
+            if p_ in kw:
+                fr.env[p_] = kw[p_]
+            elif p_ in defaults:
+                fr.env[p_] = self.ev(defaults[p_], g)
+            else:
+                fr.env[p_] = Unk()
+            fr.defs.pop(p_, None)
+        self.frames.append(fr)
+        self.stack.append(fn)
+        try:
+            if isinstance(fn, ast.Lambda):
+                fr.returns.append(self.ev(fn.body, g))
+            else:
+                self.walk(fn.body, g)
+        finally:
+            self.stack.pop()
+            self.frames.pop()
+        return self.merge_avs(fr.returns) if fr.returns else Const(None)
 
     def merge_avs(self, vals):
         vals = [v for v in vals if v is not None]
@@ -1760,9 +1811,10 @@ class Scanner:
     st_Global = st_Nonlocal = st_Import = st_ImportFrom = st_Pass
 
     def st_FunctionDef(self, st, g):
-        self.fr.env[st.name] = Unk()
+        self.fr.env[st.name] = LocalFn(st)
 
-    st_ClassDef = st_FunctionDef
+    def st_ClassDef(self, st, g):
+        self.fr.env[st.name] = Unk()
 
     def st_Expr(self, st, g):
         self.ev(st.value, g)
